@@ -173,6 +173,9 @@ func (e *C11) Run(c *core.Ctx, idx int) {
 			}
 			parts.PrvwTail = r.Bool()
 		}
+		if parts.Preview != nil && parts.PrvwSizeDelta == 0 && r.Chance(1, 8) {
+			parts.PrvwOdd = true // sizes well formed, content not what the reader expects
+		}
 		parts.TopNoise = r.Pick(0, 0, 1, 2)
 		if r.Chance(1, 4) {
 			parts.Align = 1 + r.Intn(41) // a nested header close to a 4 KiB boundary of the stream
@@ -448,6 +451,8 @@ func (e *C11) Run(c *core.Ctx, idx int) {
 			case p != end && (!malformed || err == nil || (cbFail && errors.Is(err, errCallback))):
 				viol("bmff:position:"+top[i].Type, fmt.Sprintf("after top-level %s [%d,%d) the reader stands at %d (err=%v)", top[i].Type, top[i].Off, end, p, err))
 				return
+			case err != nil && parts.PrvwOdd && named["uuid-preview"] != nil && top[i] == named["uuid-preview"]:
+				// the reader may reject the box's content; it stands behind the box all the same
 			case err != nil && !malformed && !(cbFail && errors.Is(err, errCallback)):
 				viol("bmff:error:"+top[i].Type, fmt.Sprintf("ReadMetadata failed on well-formed top-level %s: %v", top[i].Type, err))
 				return
@@ -474,7 +479,7 @@ func (e *C11) Run(c *core.Ctx, idx int) {
 		}
 		// through the top-level helpers (they call ReadMetadata a fixed number of times, so only
 		// files whose boxes come in the canonical order qualify)
-		if parts.TopNoise == 0 && !parts.CanonTop && parts.PrvwSizeDelta == 0 && parts.XMP != nil && parts.Preview != nil {
+		if parts.TopNoise == 0 && !parts.CanonTop && parts.PrvwSizeDelta == 0 && !parts.PrvwOdd && parts.XMP != nil && parts.Preview != nil {
 			imagemeta.VerifResetState()
 			pv, perr := imagemeta.PreviewCR3(mon.NewRS(data))
 			c.Rec.Eval(1)
